@@ -169,7 +169,7 @@ PROPS = {
     },
     "C01": {
         "level_text": "Coq theorems about the code-shaped model of the predicate-graph checker and an independent reference semantics (Spec/GraphRef.v): the level sort succeeds exactly on acyclic graphs, lists every node once with every edge going to a strictly later level, and never panics or runs out of fuel; malformed or cyclic graphs are rejected with the invalid-graph error before a single program is run; every node is run exactly once after all its parents on exactly the concatenation of their outputs in ascending parent order (nothing dropped by the filter_map); the verdict, gas and data outputs equal the reference; the first reported failing node is a genuine failure; the verdict, gas and data are invariant under renumberings that keep the order of co-parents; the two run modes over a shared cache evaluate each node exactly once. Correspondence: random DAGs with non-topological numberings, multi-edges, diamonds, raw malformed/cyclic/dangling encodings, 1-3 solutions, both collect_all values; the run recorder hook reports every program run with its inputs; the reference semantics is evaluated against the implementation's verdict, gas, returned set and runs.",
-        "properties": ["Properties/C01", "Properties/TwoModeThms"],
+        "properties": ["Properties/C01", "Properties/TwoModeThms", "Properties/C01Renumber"],
         "corr": ["Corr/RunGraph"],
         "engines": [{"engine": "graph", "quick": 900, "thorough": 20000}],
         "rule": "abstract random DAGs of 1..8 nodes numbered with non-leaves first in arbitrary (usually non-topological) order, multi-edges, "
